@@ -208,11 +208,15 @@ def extendedWindow (w : Iv) (reads : List ReadSpan) : Iv :=
 
 /-- the loaded `gene_info` of a region whose header says `hdr = (start, end)` and whose kept reads are `reads`:
     `get_object` sets the header window (clamped at 1), `extend_reference_region` re-loads a wider one when a read
-    reaches beyond it -/
-def loadRegion (chr : Seq) (hdr : Iv) (reads : List ReadSpan) : GeneRef × List ((Iv × Strand) × Bool) :=
+    reaches beyond it.  `flank` = `ReadAssignmentLoader.reference_flank` (`upstream_region_len` with `--sqanti_output`,
+    else 0): the window is widened by `flank` bases on either side of the reads (the SQANTI-like table reads that many
+    bases beyond the 3' end of a transcript model); nothing is done for a region without kept reads -/
+def loadRegion (chr : Seq) (hdr : Iv) (reads : List ReadSpan) (flank : Int := 0) : GeneRef × List ((Iv × Strand) × Bool) :=
   let w0 : Iv := (max 1 hdr.1, hdr.2)
   let w := extendedWindow w0 reads
-  if w.1 < w0.1 ∨ w.2 > w0.2 then setReferenceSequence chr w.1 w.2 else setReferenceSequence chr hdr.1 hdr.2
+  if reads.isEmpty then setReferenceSequence chr hdr.1 hdr.2          -- `if ... not assignment_storage: return`
+  else if w.1 - flank < w0.1 ∨ w.2 + flank > w0.2 then setReferenceSequence chr (w.1 - flank) (w.2 + flank)
+  else setReferenceSequence chr hdr.1 hdr.2
 
 /-- before the fix: the header window, whatever the reads -/
 def loadRegionOrig (chr : Seq) (hdr : Iv) (_reads : List ReadSpan) : GeneRef × List ((Iv × Strand) × Bool) :=
@@ -226,16 +230,31 @@ def canonCompute (g : GeneRef) (it : Iv) (st : Strand) : Bool :=
   let p := upperSite (siteRaw g.refRegion g.start it)
   if st = .plus then isFwd p else isRev p
 
-/-- `check_sites_are_canonical(read_introns, gene_info, strand)`; returns the answer and the memo afterwards -/
-def checkSites (g : GeneRef) : List Iv → Strand → CanonMemo → Bool × CanonMemo
+/-- the loop of `check_sites_are_canonical(read_introns, gene_info, strand)` for a strand `+` / `-`; returns the answer and
+    the memo afterwards.  (Before the repair of the unknown strand this loop was the whole function: `.` went through the
+    `else` of `canonCompute`, i.e. was looked up as `-`; kept under the name `checkSitesOrig`.) -/
+def checkSitesStrand (g : GeneRef) : List Iv → Strand → CanonMemo → Bool × CanonMemo
   | [], _, σ => (true, σ)
   | it :: rest, st, σ =>
     match σ.lookup (it, st) with
     | some v =>
-      if v then checkSites g rest st σ else (false, σ)
+      if v then checkSitesStrand g rest st σ else (false, σ)
     | none =>
       let v := canonCompute g it st
-      if v then checkSites g rest st (((it, st), v) :: σ) else (false, ((it, st), v) :: σ)
+      if v then checkSitesStrand g rest st (((it, st), v) :: σ) else (false, ((it, st), v) :: σ)
+
+/-- `check_sites_are_canonical(read_introns, gene_info, strand)`: for the unknown strand `.` the answer is
+    `check(…, '+') or check(…, '-')` (Python `or`: the `-` pass runs only when the `+` pass answered False); nothing is
+    stored under the key `.` -/
+def checkSites (g : GeneRef) (introns : List Iv) (st : Strand) (σ : CanonMemo) : Bool × CanonMemo :=
+  if st = .dot then
+    let r1 := checkSitesStrand g introns .plus σ
+    if r1.1 then (true, r1.2) else checkSitesStrand g introns .minus r1.2
+  else checkSitesStrand g introns st σ
+
+/-- the function before the repair: the unknown strand `.` was looked up as `-` (and stored under the key `.`) -/
+def checkSitesOrig (g : GeneRef) (introns : List Iv) (st : Strand) (σ : CanonMemo) : Bool × CanonMemo :=
+  checkSitesStrand g introns st σ
 
 /-- a history of queries against one `gene_info` (reads and models of one locus, in processing order) -/
 def runQueries (g : GeneRef) : List (List Iv × Strand) → CanonMemo → List Bool × CanonMemo
@@ -311,6 +330,56 @@ def readCanonicalField (checkCanonical : Bool) (g : GeneRef) (readExons : List I
       let r := checkSites g introns strand σ
       (some (boolStr r.1), r.2)
   else (none, σ)
+
+/-! ### the downstream-A window of the SQANTI-like table (`perc_A_downstream_TTS`, `seq_A_downstream_TTS`) -/
+
+/-- `IOSupport.check_downstream_polya(read_coords, gene_info, strand)` for a strand `+` / `-`, first component: the slice of
+    the loaded region as it reads on the forward strand — the `n = upstream_region_len` bases behind the last base for
+    `+`, before the first base for `-` (slice start clamped at 0: fewer than `n` bases before the transcript) -/
+def downstreamSeq (g : GeneRef) (coords : Iv) (st : Strand) (n : Int) : Seq :=
+  if st = .plus then
+    let e := coords.2 - g.start + 1
+    pySlice g.refRegion e (e + n)
+  else
+    let s := coords.1 - g.start
+    pySlice g.refRegion (max 0 (s - n)) (max 0 s)
+
+/-- before the repair: no clamp, a negative slice start is counted from the end of the loaded region -/
+def downstreamSeqOrig (g : GeneRef) (coords : Iv) (st : Strand) (n : Int) : Seq :=
+  if st = .plus then
+    let e := coords.2 - g.start + 1
+    pySlice g.refRegion e (e + n)
+  else
+    let s := coords.1 - g.start
+    pySlice g.refRegion (s - n) s
+
+/-- second component, numerator of `a_percentage` (denominator `n`): `seq.upper().count('A')` for `+`, `count('T')` for `-` -/
+def downstreamCount (seq : Seq) (st : Strand) : Nat :=
+  (seq.map Char.toUpper).count (if st = .plus then 'A' else 'T')
+
+/-- the two columns as `SqantiTSVPrinter.add_read_info` fills them: `none` = `NA` (no reference region, or unknown strand:
+    a transcript of strand `.` has no known 3' end), else (sequence, count of A / T; the printed percentage is count / n) -/
+def sqantiDownstream (g : GeneRef) (coords : Iv) (st : Strand) (n : Int) : Option (Seq × Nat) :=
+  if g.refRegion.isEmpty then none
+  else if st = .dot then none
+  else
+    let s := downstreamSeq g coords st n
+    some (s, downstreamCount s st)
+
+/-- before the two repairs: `.` taken as `-`, no clamp -/
+def sqantiDownstreamOrig (g : GeneRef) (coords : Iv) (st : Strand) (n : Int) : Option (Seq × Nat) :=
+  if g.refRegion.isEmpty then none
+  else
+    let s := downstreamSeqOrig g coords st n
+    some (s, downstreamCount s st)
+
+/-- the `all_canonical` column of the same row: `NA` without reference region, else `str(check_sites_are_canonical(...))`
+    (a mono-exonic model has no intron: `True`) -/
+def sqantiAllCanonical (g : GeneRef) (exons : List Iv) (st : Strand) (σ : CanonMemo) : Option String × CanonMemo :=
+  if g.refRegion.isEmpty then (none, σ)
+  else
+    let r := checkSites g (junctionsFromBlocks exons) st σ
+    (some (boolStr r.1), r.2)
 
 /-! ### the attribute list of a printed transcript line
 
